@@ -154,7 +154,7 @@ SliceG ==
 SliceK ==
   UNION {{Src(fam, sn \o ValOf(fam, vk) \o <<DerB(AsSeq(D))>> \o dfl \o cf, AllFeats) :
             sn \in {<<>>, <<SanB(<<S("with")>>)>>},
-            vk \in VKinds(fam) \ {"finite2"}, dfl \in {<<>>, <<DflB("valid")>>}, cf \in {<<>>, <<Blk("const_fn")>>},
+            vk \in VKinds(fam) \ {"finite2"}, dfl \in {<<>>, <<DflB("valid")>>, <<DflB("block")>>}, cf \in {<<>>, <<Blk("const_fn")>>},
             D \in {{"Debug"}, {"Debug", "Clone", "Copy", "PartialEq", "PartialOrd"}, {"Debug", "FromStr", "Display"},
                    {"Debug", "TryFrom", "Into", "AsRef", "Deref", "Borrow"}, {"Serialize", "Deserialize"}, {"Debug", "Default"},
                    {"Debug", "Arbitrary"}, {"Debug", "Clone", "PartialEq", "Eq", "PartialOrd", "Ord", "Hash"}}}
